@@ -9,8 +9,8 @@ import Blots.Model.Format
     `contains_comments` does not count, but which never print on one line);
   * `joinStatementsWithSpacing` : structure of the output, the gaps, stability.
 
-  The width-driven layout functions (`fmtImpl`, `fmtMulti`, …) are `partial` in the model:
-  no theorem is (or can be) stated about them.
+  The width-driven layout functions (`fmtImplP`, …: total, piece lists) are treated in
+  `Lemmas/FormatPieces.lean`.
 -/
 namespace Blots
 namespace FormatL
